@@ -139,9 +139,8 @@ impl Ctx {
         }
     }
     /// Execute one case on the implementation (counts as an evaluation). Every
-    /// 97th execution is repeated and must give the identical observation; the repetition runs on a thread of its
-    /// own, so that state the subject keeps in thread-locals between two runs in one process (which a real run, being a
-    /// process of its own, never sees) shows as a divergence instead of silently shaping every later run.
+    /// 97th execution is repeated, on a thread of its own, and must give the identical observation (see
+    /// `drive::run_with`).
     pub fn run(&mut self, case: &Case) -> Obs {
         self.rep.evaluations += 1;
         if self.rep.evaluations % 512 == 0 && self.last_snap.elapsed().as_secs() >= 2 {
@@ -149,10 +148,12 @@ impl Ctx {
         }
         let o = drive::run(case);
         if self.rep.evaluations % 97 == 0 {
-            let o2 = std::thread::scope(|s| s.spawn(|| drive::run(case)).join()).unwrap_or_else(|_| drive::run(case));
+            // the repetition runs on a thread of its own: state the subject keeps between two runs of one thread
+            // (which the executable, being a process per run, never sees) shows as a divergence
+            let o2 = drive::on_fresh_threads(|| drive::run(case));
             if o != o2 {
                 self.rep.machinery_errors.push(format!(
-                    "nondeterministic observation for case {}: {} vs {}",
+                    "nondeterministic observation (the repetition ran on a fresh thread) for case {}: {} vs {}",
                     serde_json::to_string(case).unwrap_or_default(),
                     o.brief(),
                     o2.brief()
